@@ -26,6 +26,17 @@ def scratch():
     return d
 
 
+def record(pid, m, result, lines, wall):
+    """selftest/RESULTS.json: last outcome per mutant (development record, quoted in DESIGN.md)"""
+    import re
+
+    rp = os.path.join(ROOT, "selftest", "RESULTS.json")
+    res = json.load(open(rp)) if os.path.exists(rp) else {}
+    sigs = sorted({mm.group(1) for l in lines for mm in [re.match(r"  failure \[\d+x\] (\S+?):", l)] if mm})
+    res[f"{pid}/{m['name']}"] = {"file": m["file"], "result": result, "signatures": sigs[:6], "wall_s": round(wall)}
+    json.dump(res, open(rp, "w"), indent=1, sort_keys=True)
+
+
 def main():
     args = sys.argv[1:]
     if args and args[0] == "--seeded":
@@ -60,12 +71,14 @@ def main():
             if s.count(m["old"]) != 1:
                 print(f"{pid} {m['name']}: pattern matches {s.count(m['old'])} times — mutant stale")
                 missed += 1
+                record(pid, m, "STALE", [], 0)
                 continue
             open(path, "w").write(s.replace(m["old"], m["new"]))
             rc, lines, wall = run_check(pid, os.path.join(d, "src"), m.get("extra", []))
             ok = rc == 1
             missed += not ok
             print(f"{pid} {m['name']}: {'CAUGHT' if ok else 'MISSED rc=%d' % rc} ({wall:.0f}s)")
+            record(pid, m, "CAUGHT" if ok else f"MISSED(rc={rc})", lines, wall)
             for l in lines[:4]:
                 print("    " + l[:260])
         finally:
